@@ -113,9 +113,13 @@ def lift(d, rng=None, nt=float, form=None):
             return G.Segment(P(d[1]), P(d[2]))
         return G.Segment(P(d[1]), Vv(K.sub(d[2], d[1])))
     if k == "PL":
-        f = form if form is not None else (r.randrange(3) if r else 0)
+        f = form if form is not None else (r.randrange(4) if r else 0)
         if f == 0:
             return G.Plane(P(d[1]), Vv(d[2]))
+        if f == 3:
+            # general form a x + b y + c z = d with the (non-unit) exact coefficients
+            n = d[2]
+            return G.Plane(num(n[0], nt), num(n[1], nt), num(n[2], nt), num(K.dot(n, d[1]), nt))
         u, v = plane_basis(d[2])
         if f == 1:
             return G.Plane(P(d[1]), Vv(u), Vv(v))
